@@ -392,7 +392,7 @@ class Sim:
             if first:
                 st.initialize()
                 first = False
-            snap = Snapshot(ts.to_pydatetime(), row_id, price_row)
+            snap = Snapshot(ts.to_pydatetime(), row_id, price_row.copy())  # the strategy's own copy of the bar's prices
             st.before_bar(snap)
             st.on_bar(snap)
             for m in self.markets.values():
